@@ -21,14 +21,14 @@ def tweak_cases(ctx):
     N = 0xFFFFFFFFFFFFFFFFFFFFFFFFFFFFFFFEBAAEDCE6AF48A03BBFD25E8CD0364141
     # (the generated code is interpreted: a scalar multiplication takes a fraction of a second, hence the small quick-tier volume)
     tell = [d for _, d in G.telling_secrets()]
-    secrets = (tell if ctx.thorough else rng.sample(tell, min(3, len(tell)))) + [1, N - 1] + [rng.randrange(1, N) for _ in range(ctx.n(2, 150))]
+    secrets = (tell if ctx.thorough else rng.sample(tell, min(3, len(tell)))) + [1, N - 1] + [rng.randrange(1, N) for _ in range(ctx.n(2, 30))]
     for d in secrets:
         k = d.to_bytes(32, 'big')
         pub = PrivateKey(secret_exponent=d).get_public_key().to_bytes()
         yield Case(f'full_pubkey {hx(k)}', 'g', nontrivial=True, tag='tweak-fullpub')
         yield Case(f'negate {hx(k)}', 'g', nontrivial=True, tag='tweak-negate')
         ts = [0, 1, N - 1, N - d, rng.randrange(N), rng.getrandbits(256)]
-        for t in (ts if ctx.thorough else rng.sample(ts, 2)):
+        for t in rng.sample(ts, 3 if ctx.thorough else 2):       # (interpreted scalar multiplications: minutes per thousand)
             yield Case(f'tweak_pub {hx(pub)} {t}', 'g', nontrivial=True, tag='tweak-pub')
             yield Case(f'tweak_priv {hx(k)} {t}', 'g', nontrivial=True, tag='tweak-priv')
     # out-of-range secrets and malformed public keys: the error paths
@@ -131,6 +131,12 @@ def cases(ctx):
             return (f's:tr_verify_tx {line} {pk} {hx(sig[:64])}', 'ok 1')
         ctx.count('full-flow')
         yield Case(f'tr_sign_tx {hx(priv.to_bytes())} {TT.line(tree)} {line}', 's', nontrivial=True, tag='full', spec=spec)
+        # a sample through the translated public method (digest of the transaction object, then the translated Schnorr signer; interpreted)
+        if rng.random() < (0.2 if not ctx.thorough else 0.02):
+            ctx.count('gen-wrapper')
+            yield Case(f'pk_sign_tr {hx(priv.to_bytes())} {hx(pub.to_bytes())} {tx_to_line(tx)} {i} {sp} {1 if script_path else 0} '
+                       f'{toks_str(leaf)} {"N" if script_path else TT.scripts_line(tree)} {ht} {0 if script_path else 1}', 'g', nontrivial=True,
+                       tag='gen-wrapper')
 
 
 def _output_x(px):
@@ -180,6 +186,12 @@ def impl(op, a, ctx):
         pub = PublicKey('04' + F.bytes().hex()); s = TT.parse_scripts(F); F.done()
         prog, odd = pub.to_taproot_hex(TT.scripts_py(s))
         return f'ok {prog} {1 if odd else 0}'
+    if op == 'pk_sign_tr':
+        priv = PrivateKey(b=F.bytes()); F.bytes(); tx = line_to_tx(F); i = F.nat()
+        spks = [Script(s) for s in F.list(F.toks)]; amts = F.list(F.int); sp = F.bool(); leaf = F.toks(); s_ = TT.parse_scripts(F)
+        ht = F.nat(); tw = F.bool(); F.done()
+        return 'ok ' + priv.sign_taproot_input(tx, i, spks, amts, script_path=sp, tapleaf_script=Script(leaf), tapleaf_scripts=TT.scripts_py(s_),
+                                               sighash=ht, tweak=tw)
     if op == 'tr_sign_tx':
         priv = PrivateKey(b=F.bytes()); tree = TT.parse(F); tx = line_to_tx(F); i = F.nat()
         spks = [Script(s) for s in F.list(F.toks)]; amts = F.list(F.int); sp = F.bool(); leaf = F.toks(); ht = F.nat(); F.done()
